@@ -51,6 +51,16 @@ struct { size_t lo, hi, nthreads; uint64_t w; bool shutdown, waitres; } LIN, LIN
 bool G_acquired;
 size_t G_rel_hi;             /* _tasks.hi at my last release of _mutex */
 
+/* ------------------------------------------------------------------------------------------------ start(): Reset -> Running
+ * Lifecycle calls (stop/reset/start/drain/shutdown) are serialised by their caller and start() runs in state Reset, i.e. after stop()
+ * joined every worker and reset() cleared the map: while G_lifecycle_owner is set, environment steps (submitters, the workers born
+ * by this call) leave _shutdown, _accepting and _lifecycleState alone. */
+bool G_lifecycle_owner;
+typedef struct { bool success; LifecycleState newState; } iora_lcresult;
+#define iora_lcresult_DEFAULT ((iora_lcresult){0, 0})
+static inline iora_lcresult tp_lcresult(bool ok, LifecycleState st) { iora_lcresult r = { ok, st }; return r; }
+struct { size_t spawn_calls, added, live, born_dead; } ST;
+
 /* ------------------------------------------------------------------------------------------------ monitor invariant
  * holds whenever _mutex is free; asserted at every release by this thread (MI*, DR1), assumed after every environment step */
 #define TP_QSIZE(p) ((p)->_tasks.hi - (p)->_tasks.lo)
@@ -78,6 +88,7 @@ static inline void tp_env_step(ThreadPool *p)
   int lc = nondet_int();
   bool was_live = p->_tasks.lo <= GQ && GQ < p->_tasks.hi;
   if (p->_mutex.held) IORA_ASSUME(lo == p->_tasks.lo && hi == p->_tasks.hi && w == p->_tasks.w && sh == p->_shutdown && n == p->_threads.n && hs == p->_threads.has_self && sj == p->_threads.self_joinable);
+  if (G_lifecycle_owner) IORA_ASSUME(sh == p->_shutdown && acc == p->_accepting && lc == p->_lifecycleState);      /* serialised lifecycle calls */
   IORA_ASSUME(lo >= p->_tasks.lo && hi >= p->_tasks.hi);                    /* R1 tasks are only appended at the back and taken at the front */
   IORA_ASSUME(!p->_shutdown || (sh && hi == p->_tasks.hi));                 /* R2 once _shutdown is set nothing more is accepted (no restart in scope) */
   IORA_ASSUME(!(was_live && lo <= GQ) || w == p->_tasks.w);                 /* R3 a queued task does not change */
@@ -174,6 +185,18 @@ static inline void tp_thread_join(ThreadPool *p, iora_thread *t) {
   tp_env_step(p); t->joinable = 0; JN.joined++; if (t->is_witness) JN.witness_joined = 1; }
 static inline void tp_thread_detach(ThreadPool *p, iora_thread *t) { (void)p; IORA_ASSERT(t->joinable, "detach() of a joinable thread"); t->joinable = 0; JN.detached++; }
 
+/* spawnWorker() as called by start(): effect per its own contract SP2-SP4 (adds one entry iff there is room, under its own lock
+ * acquisition = environment step first) PLUS the birth of the worker: its first loop test reads _shutdown. Under the monitor model a
+ * worker born while _shutdown is set takes the shutdown exit (WS4) and - unlike the idle exit - leaves its map entry behind. */
+static inline void tp_start_spawn(ThreadPool *p)
+{
+  IORA_ASSERT(!p->_mutex.held, "LK1 spawnWorker() is called with _mutex free (it locks it)");
+  tp_env_step(p);
+  IORA_ASSERT(!p->_shutdown, "ST1 at every spawnWorker() call made by start(), _shutdown is already false (a new worker's first loop test reads it; born under _shutdown it exits and its map slot stays dead, so accepted tasks never run)");
+  ST.spawn_calls++;
+  if (p->_threads.n < p->_maxSize) { p->_threads.n++; ST.added++; if (p->_shutdown) ST.born_dead++; else ST.live++; }
+}
+
 /* ------------------------------------------------------------------------------------------------ task / handler stubs */
 static inline void tp_task_run(ThreadPool *p, iora_fn task)
 {
@@ -226,6 +249,14 @@ static inline void tp_handler_call(ThreadPool *p, iora_handler h) { (void)h; IOR
       && JN.witness_joined == __CPROVER_loop_entry(JN.witness_joined)) \
   __CPROVER_loop_invariant((self->_threads.has_self && G_wpos < it.idx) ==> !self->_threads.self_joinable) \
   __CPROVER_decreases(self->_threads.n - it.idx))
+
+/* start() loop 1: spawn the initial workers of the new generation */
+#define IORA_LOOP_ThreadPool_start_restart_1 IORA_LC( \
+  __CPROVER_assigns(i, TP_SHARED_BY_ENV, ST) \
+  __CPROVER_loop_invariant(i <= workerCount && workerCount < ((size_t)1 << 40) && TP_LOOP_ENV_INV && G_lifecycle_owner && ST.spawn_calls == i && ST.added <= i && ST.live <= i && ST.born_dead <= i && ST.live + ST.born_dead == ST.added) \
+  __CPROVER_loop_invariant(self->_shutdown == __CPROVER_loop_entry(self->_shutdown) && self->_accepting == __CPROVER_loop_entry(self->_accepting) \
+      && self->_lifecycleState == __CPROVER_loop_entry(self->_lifecycleState) && (!self->_shutdown ==> ST.born_dead == 0)) \
+  __CPROVER_decreases(workerCount - i))
 
 /* shutdownPhase3_DrainTasks loop 1: the polling loop */
 #define IORA_LOOP_ThreadPool_shutdownPhase3_DrainTasks_1 IORA_LC( \
